@@ -89,7 +89,8 @@ impl Int {
         let x = string
             .parse::<i128>()
             .map_err(|e| JsError::from_str(&format! {"{:?}", e}))?;
-        if x.abs() > u64::MAX as i128 {
+        // CBOR int range: -2^64 ..= 2^64 - 1
+        if x > u64::MAX as i128 || x < -(u64::MAX as i128) - 1 {
             return Err(JsError::from_str(&format!(
                 "{} out of bounds. Value (without sign) must fit within 4 bytes limit of {}",
                 x,
